@@ -17,9 +17,15 @@ theorem argGlobs_retypeArg (ge : Core3.GEnv) (e : List (Core3.Ident × Types.Ty)
     simp only [Core3.retypeArg, Core3.argGlobs, List.flatMap_map]
   | _ => rfl
 
+theorem extGlobs_retypeExt (ge : Core3.GEnv) (e : List (Core3.Ident × Types.Ty)) (x : Core3.Ext) :
+    Core3.extGlobs (Core3.retypeExt ge e x) = Core3.extGlobs x := by
+  cases x with
+  | clauses cl cs => simp only [Core3.retypeExt, Core3.extGlobs, List.flatMap_map]
+  | _ => rfl
+
 theorem instGlobs_retypeInst (ge : Core3.GEnv) (e : List (Core3.Ident × Types.Ty)) (i : Core3.Inst) :
-    (Core3.retypeInst ge e i).args.flatMap Core3.argGlobs = i.args.flatMap Core3.argGlobs := by
-  simp only [Core3.retypeInst, List.flatMap_map, argGlobs_retypeArg]
+    Core3.instGlobs (Core3.retypeInst ge e i) = Core3.instGlobs i := by
+  simp only [Core3.instGlobs, Core3.retypeInst, List.flatMap_map, argGlobs_retypeArg, extGlobs_retypeExt]
 
 /-- the types written in front of operands are replaced; the operands are not -/
 theorem globUses_retypeIn (ge : Core3.GEnv) (f : Core3.Func) : Core3.globUses (Core3.retypeIn ge f) = Core3.globUses f := by
@@ -117,8 +123,8 @@ theorem whole_global_refs_resolve (ls : List Bytes) (m : Module) (h : parse ls =
                 simpa [genvOf, hnames, List.map_append, List.map_map, Function.comp_def] using this
               · cases h
 
-/-- non-vacuity: the module `wholeSample` (its function `@h` mentions the global variable `@c` twice and the function `@f` twice (once as the callee of a call)) is accepted -/
-example : (parse (printModule (fun _ => false) C01.wholeSample)).map (fun m => m.funcs.flatMap Core3.globUses) = some [[99], [102], [99], [102], [101, 120, 116]] := by
+/-- non-vacuity: the module `wholeSample` (its function `@f` invokes itself; its function `@h` mentions the global variable `@c` twice and the function `@f` twice (once as the callee of a call)) is accepted -/
+example : (parse (printModule (fun _ => false) C01.wholeSample)).map (fun m => m.funcs.flatMap Core3.globUses) = some [[102], [99], [102], [99], [102], [101, 120, 116]] := by
   decide +kernel
 
 end Llir.Props.C04
